@@ -392,9 +392,25 @@ func amountRule(c *Ctx) {
 	// classify judges one instantiation of an unlock site: amt is the undelegated amount in f's terms, chain the
 	// call sites from f down to the function containing the site. An amount that is still an opaque parameter
 	// and is not guarded at this level is judged one level up, at each caller (a helper shared by both branches).
+	// extra: edges of the site's own function that are deleted for this instance (the other ways into the block whose phis
+	// choose the site's arguments)
+	var extra map[[2]int]bool
 	var classify func(ue ir.Effect, f *ssa.Function, chain []ssa.Instruction, amt *ir.Expr, key string, depth int)
 	classify = func(ue ir.Effect, f *ssa.Function, chain []ssa.Instruction, amt *ir.Expr, key string, depth int) {
-		guarded := func(m ir.Matcher) bool { return chainGuarded(c, f, chain, ue.Site, m, 1) }
+		guarded := func(m ir.Matcher) bool {
+			if len(extra) == 0 {
+				return chainGuarded(c, f, chain, ue.Site, m, 1)
+			}
+			site := ue.Site
+			root := w.FlatRoot(f)
+			cut := &ir.FlatCut{Matcher: m, Depth: 1, Edges: func(ctx *ir.FCtx) map[[2]int]bool {
+				if ctx.Fn == ue.Fn {
+					return extra
+				}
+				return nil
+			}}
+			return w.FlatReaches(root, nil, cut, func(p ir.FPos) bool { return p.In == site }) == nil
+		}
 		lockedAll := w.Expand(amt, 3).Any(func(x *ir.Expr) bool { return isStateField(x, secLocked, "Amount") })
 		switch {
 		case lockedAll:
@@ -431,7 +447,17 @@ func amountRule(c *Ctx) {
 		if !c.Rooted(f) {
 			continue
 		}
-		classify(ue, f, nil, w.ExprOf(ue.Call.Common().Args[3]), fmt.Sprintf("%s|undelegate%d", fn(f), i), 0)
+		// (one site whose amount is chosen by a branch beforehand counts once per way of choosing it)
+		insts := ir.PhiInstances(ue.Call.Common().Args[3])
+		for k, inst := range insts {
+			extra = inst.Cut
+			key := fmt.Sprintf("%s|undelegate%d", fn(f), i)
+			if len(insts) > 1 {
+				key += fmt.Sprintf("/%d", k)
+			}
+			classify(ue, f, nil, w.ExprOf(inst.Value(ue.Call.Common().Args[3])), key, 0)
+		}
+		extra = nil
 	}
 	r.Require(n == 2, "A2.amount-rule", "site-count", "", "there are exactly two unlock sites", fmt.Sprintf("%d", n))
 }
